@@ -171,6 +171,8 @@ func init() {
 				N:     nA + nB + size(tier, 100000, 10000000),
 				Setup: func(c *harness.Ctx) { hooksOn() },
 				Run: func(c *harness.Ctx, k int) {
+					hooksAlternate(k) // key / container poison also hides a library that wrongly re-uses a recycled buffer's content: every second case runs without
+
 					var p *spec.Path
 					var doc string
 					switch {
